@@ -4,6 +4,7 @@ INVARIANT FailedAssignIsNoOp
 INVARIANT Serialisable
 PROPERTY MustReject
 PROPERTY MustAccept
+PROPERTY SourceUntouched
 PROPERTY ConvertedAsDocumented
 PROPERTY FreshStartsEmpty
 CHECK_DEADLOCK FALSE
